@@ -195,7 +195,15 @@ def _call(it, e, env):
         if b == "sum":
             v = argv[0] if argv else unk()
             if v.k == "list":
-                return v.elem if v.elem is not None else unk("sum of empty list")
+                el = v.elem
+                if el is None:
+                    return unk("sum of empty list")
+                if v.axis in ("B", "?1") and el.is_numlike:
+                    # the builtin sum over a list of per-block values is the fold over the blocks (like reduce / np.sum(axis=0))
+                    if v.axis == "B" and it.c.track_s and not el.wild and not el.is_unk and el.s == 0 and el.part:
+                        it.violation("EXT.D4", e, f"per-block values of type {fmt(el)} are summed over the blocks although they are intensive (per-block averages)")
+                    el = mark_part(el, False)
+                return el
             return unk("sum()")
         if b in ("max", "min"):
             return argv[0] if argv else unk()
